@@ -6,7 +6,16 @@ use crate::linalg::{
 
 /// Computes the Cholesky decomposition of the matrix `a` using the Cholesky-Banachiewicz
 /// algorithm.
+///
+/// # Errors
+/// Panics if the matrix is not positive definite.
 pub fn cholesky(a: &[f64]) -> Vec<f64> {
+    try_cholesky(a).expect("matrix is not positive definite")
+}
+
+/// Computes the Cholesky decomposition of the matrix `a`, or returns `None` if a pivot is not
+/// positive (i.e., the matrix is not positive definite).
+pub(crate) fn try_cholesky(a: &[f64]) -> Option<Vec<f64>> {
     assert!(is_symmetric(a));
     let n = is_square(a).unwrap();
 
@@ -17,14 +26,18 @@ pub fn cholesky(a: &[f64]) -> Vec<f64> {
             let s = dot(&l[(j * n)..(j * n + j)], &l[(i * n)..(i * n + j)]);
 
             if i == j {
-                l[i * n + j] = (a[i * n + i] - s).sqrt();
+                let pivot = a[i * n + i] - s;
+                if pivot <= 0. || pivot.is_nan() {
+                    return None;
+                }
+                l[i * n + j] = pivot.sqrt();
             } else {
                 l[i * n + j] = (a[i * n + j] - s) / l[j * n + j];
             }
         }
     }
 
-    l
+    Some(l)
 }
 
 /// Solves the system Lx=b, where L is a lower triangular matrix (e.g., a Cholesky decomposed
